@@ -49,9 +49,16 @@ pub fn par_map<T: Send, F: Fn(u64) -> T + Sync>(
     out.into_iter().map(|x| x.1).collect()
 }
 
+thread_local! {
+    static CATCHING: std::cell::Cell<u32> = const { std::cell::Cell::new(0) };
+}
+
 /// Catches a panic and returns its message.
 pub fn catch<T>(f: impl FnOnce() -> T) -> Result<T, String> {
-    std::panic::catch_unwind(std::panic::AssertUnwindSafe(f)).map_err(|err| {
+    CATCHING.with(|c| c.set(c.get() + 1));
+    let res = std::panic::catch_unwind(std::panic::AssertUnwindSafe(f));
+    CATCHING.with(|c| c.set(c.get() - 1));
+    res.map_err(|err| {
         if let Some(s) = err.downcast_ref::<&str>() { s.to_string() }
         else if let Some(s) = err.downcast_ref::<String>() { s.clone() }
         else { "panic".to_string() }
@@ -60,5 +67,10 @@ pub fn catch<T>(f: impl FnOnce() -> T) -> Result<T, String> {
 
 /// Silences the default panic message (we report panics ourselves).
 pub fn quiet_panics() {
-    std::panic::set_hook(Box::new(|_| { }));
+    let default = std::panic::take_hook();
+    std::panic::set_hook(Box::new(move |info| {
+        if CATCHING.with(|c| c.get()) == 0 {
+            default(info)
+        }
+    }));
 }
